@@ -267,7 +267,39 @@ pub fn targets() -> Vec<Target>
     ]
 }
 
+/// Symmetry breaking (restricted growth): keys that differ only by an interchangeable label may be used only after their
+/// predecessor has been used: g after f for `syscall`, name n1 after n0, the second ordinary spawned system after the
+/// first, (n0, g) after (n0, f). Renaming the labels maps every pruned sequence onto an explored one.
+fn predecessor(t: Target) -> Option<Target>
+{
+    match t
+    {
+        Target::Sys(1) => Some(Target::Sys(0)),
+        Target::Named(1, 0) => Some(Target::Named(0, 0)),
+        Target::Named(0, 1) => Some(Target::Named(0, 0)),
+        Target::Spawned(1) => Some(Target::Spawned(0)),
+        _ => None,
+    }
+}
+
+fn canonical(hist: &[Op17], op: &Op17) -> bool
+{
+    let mut used: Vec<Target> = hist.iter().flat_map(|o| o.0.iter().copied()).collect();
+    for t in op.0.iter()
+    {
+        if let Some(p) = predecessor(*t) { if !used.contains(&p) { return false; } }
+        used.push(*t);
+    }
+    true
+}
+
 pub fn enabled17(nesting: usize) -> impl Fn(&[Op17]) -> Vec<Op17> + Sync
+{
+    let all = enabled17_all(nesting);
+    move |hist: &[Op17]| all(hist).into_iter().filter(|op| canonical(hist, op)).collect()
+}
+
+pub fn enabled17_all(nesting: usize) -> impl Fn(&[Op17]) -> Vec<Op17> + Sync
 {
     move |_hist: &[Op17]| {
         let ts = targets();
